@@ -19,7 +19,8 @@ class Inapplicable(Exception):
 KINDS = ["cell_number", "surface_number", "material_number", "transform_number",
          "surface_constant", "density", "importance", "volume", "title", "fraction",
          "tr_displacement", "universe_number", "material_assign",
-         "cell_universe", "fill_universe", "lattice", "boundary", "thermal_law", "tr_degrees", "surface_transform", "placement"]
+         "cell_universe", "fill_universe", "lattice", "boundary", "thermal_law", "tr_degrees", "surface_transform", "placement", "tr_rotation"]
+# "data_append" (problem.data_inputs.append(<new data input>)) is drawn for C19 only (props/C19.py)
 # "placement" = problem.print_in_data_block[key] = bool: which block per-cell data are written in does not change what
 # the file denotes (C09's subject), but it rewrites every cell card and the data-block vectors: an edit like any other
 
@@ -68,6 +69,9 @@ def gen_program(rng, meta, n=None, kinds=None):
             prog.append({"kind": "importance", "orig": c, "particle": rng.choice(meta["particles"]),
                          "value": rng.choice([0.0, 2.0, 4.0, 0.5, 8.0])})
         elif key == "vol":
+            have = [x for x in meta["cells"] if x in meta.get("vols", {})]
+            if have and rng.random() < 0.8:
+                c = rng.choice(have)
             prog.append({"kind": "volume", "orig": c, "value": rng.choice([2.5, 100.0, 0.125])})
     for _ in range(n):
         k = rng.choice(kinds)
@@ -90,6 +94,13 @@ def gen_program(rng, meta, n=None, kinds=None):
         elif k == "surface_constant":
             o = rng.choice(meta["surfaces"])
             nconst = len(meta["surface_constants"][o])
+            interp = meta.get("surface_interpolated") or {}
+            if interp and rng.random() < 0.4:
+                # a constant that an interpolate shortcut generated
+                o = rng.choice(sorted(interp))
+                idx = rng.choice(interp[o])
+                prog.append({"kind": k, "orig": o, "index": idx, "value": rng.choice([2.5, 0.125, 12.0, -7.75])})
+                continue
             prog.append({"kind": k, "orig": o, "index": rng.randrange(nconst),
                          "value": rng.choice([2.5, 0.125, 12.0, 1.0e-3, -7.75, 300.0, 0.5, 64.0, 5.0000005, 2.5e-7,
                                               -3.0000002, 63.9999996])})
@@ -147,6 +158,16 @@ def gen_program(rng, meta, n=None, kinds=None):
         elif k == "tr_degrees" and meta["transforms"]:
             o = rng.choice(meta["transforms"])
             prog.append({"kind": k, "orig": o, "value": rng.random() < 0.5})
+        elif k == "tr_rotation" and meta["transforms"]:
+            # a rotation matrix of a valid length (5, 6 or 9 entries); half of the time one entry more than was read
+            o = rng.choice(meta["transforms"])
+            had = int(meta.get("tr_rotation_entries", {}).get(o, 0))
+            m = had + 1 if (had + 1 in (5, 6, 9) and rng.random() < 0.5) else rng.choice([5, 6, 9])
+            prog.append({"kind": k, "orig": o,       # (never all zeros: that is no rotation matrix)
+                         "matrix": [rng.choice([1.0, -1.0, 0.5])] +
+                                   [rng.choice([0.0, 1.0, -1.0, 0.5, 0.25, 0.866]) for _ in range(m - 1)]})
+        elif k == "data_append":
+            prog.append({"kind": k, "text": rng.choice(["ctme 60", "prdmp 2j 1", "void", "dbcn 12345"])})
         elif k == "placement":
             # where per-cell data are written: cell parameters or data-block vectors (the denotation is the same)
             prog.append({"kind": k, "key": rng.choice(["imp", "vol", "u"]), "data_block": rng.random() < 0.5})
@@ -180,7 +201,8 @@ def apply(h, e):
            "surface_number": "surface", "surface_constant": "surface", "boundary": "surface",
            "surface_transform": "surface",
            "material_number": "material", "fraction": "material", "thermal_law": "material",
-           "transform_number": "transform", "tr_displacement": "transform", "tr_degrees": "transform"}
+           "transform_number": "transform", "tr_displacement": "transform", "tr_degrees": "transform",
+           "tr_rotation": "transform"}
     if k in own and e["orig"] not in table[own[k]]:
         raise Inapplicable(f"{own[k]} {e['orig']}")
     if k == "material_assign" and e["material"] not in h.materials:
@@ -302,6 +324,19 @@ def apply(h, e):
             s.is_reflecting = False
             s.is_white_boundary = False
         return True, [("value", 1, s.number, ("boundary",), e["value"])]
+    if k == "tr_rotation":
+        import numpy as np
+        t = h.transforms[e["orig"]]
+        t.rotation_matrix = np.array([float(x) for x in e["matrix"]])
+        return True, [("value", 2, t.number, ("rotation",), len(e["matrix"]))]
+    if k == "data_append":
+        from montepy.input_parser.mcnp_input import Input
+        from montepy.input_parser.block_type import BlockType
+        from montepy.data_inputs.data_parser import parse_data
+        obj = parse_data(Input([e["text"]], BlockType.DATA))
+        obj.link_to_problem(pr)
+        pr.data_inputs.append(obj)
+        return True, [("data_append", e["text"])]
     if k == "placement":
         if pr.print_in_data_block[e["key"].upper()] == bool(e["data_block"]):
             return False, []
